@@ -130,7 +130,12 @@ fn client(front: SocketAddr, scn: Scn) -> (Vec<St>, bool, bool) {
         return (sts, false, true);
     }
     let t0 = Instant::now();
-    let paths = ["/g1/a".to_string(), format!("/f{}/x", scn.id), "/g2/b".to_string()];
+    let middle = match scn.kind.strip_prefix("h2c_") {
+        // the faulty stream goes to the scripted h2c backend; the path selects the fault
+        Some(fault) => format!("/hf/{}/fault/{}", scn.id, fault),
+        None => format!("/f{}/x", scn.id),
+    };
+    let paths = ["/g1/a".to_string(), middle, "/g2/b".to_string()];
     let mut out = vec![];
     for (i, path) in paths.iter().enumerate() {
         out.extend(frame(T_HEADERS, 0x5, 1 + 2 * i as u32, &request_block(false, path)));
@@ -296,8 +301,17 @@ fn main() {
     std::thread::spawn(move || h2c_backend(g2));
     cluster(&mut w, "g1", "/g1/", false, Some(g1a), &mut sent);
     cluster(&mut w, "g2", "/g2/", true, Some(g2a), &mut sent);
+    // one scripted h2c backend with faults selected by the request path (harness/src/h2bb.rs)
+    let hf = TcpListener::bind("127.0.0.1:0").unwrap();
+    let hfa = hf.local_addr().unwrap();
+    let (log_tx, _log_rx) = std::sync::mpsc::channel::<String>();
+    std::thread::spawn(move || h2c_fault_backend(hf, log_tx));
+    cluster(&mut w, "hf", "/hf/", true, Some(hfa), &mut sent);
     let until = Instant::now() + DEADLINE + Duration::from_secs(5);
     for scn in &scns {
+        if scn.kind.starts_with("h2c_") {
+            continue;
+        }
         let id = format!("f{}", scn.id);
         let prefix = format!("/f{}/", scn.id);
         if scn.kind == "nohost" {
